@@ -341,7 +341,7 @@ func runC03(cw *caseWriter, tier string, seed uint64) {
 		runScenarios(cw, 2, seed*100000, 600, 12)
 		runScenarios(cw, 13, seed*100000, 800, 12)
 	}
-	// runC102(cw, tier, seed, 1) // enabled once the model tracks nextIndex (see ClusterCommit.v)
+	runC102(cw, tier, seed, 1)
 }
 
 func runC09(cw *caseWriter, tier string, seed uint64) {
